@@ -14,7 +14,7 @@
 //! points where more than one task was runnable (digits, index into the runnable tasks in creation
 //! order), or `-`.  Replaying a case line reproduces the run exactly.
 //!
-//! Statements (`N` = exit status 0..255, `W` = a word of letters):
+//! Statements (`N` = exit status of a child, 0..999 — the shell sees `N % 256` —, `W` = a word of letters):
 //!   pf1 / pf0            set -o pipefail / set +o pipefail
 //!   p M M …              pipeline of members      M ::= sN (`st N`) | xN (`exit N`) | c (`cat`)
 //!                                                      | eW (`echo W`) | gN (`( exit N )`) | qN (`x=$(exit N)`)
@@ -43,6 +43,9 @@
 //!                        helper job while the shell waits for it
 //!   m1 / m0              set -m / set +m (job control: pipelines run in a subshell of their own process group)
 //!   fpo / fpi / fpb F F … a flow pipeline in a subshell whose stdout / stdin / both are closed
+//!   fd X Y N             `( exec Y>&2 … X>&- …; fdsnap B; fdsnap 0 | … | fdsnap N-1; fdsnap P )`: an N-stage pipeline
+//!                        (N = 2..8) in a subshell with the descriptors X ⊆ {0,1,2} closed and Y ⊆ {3..9} open
+//!                        (`-` = none); `fdsnap` records the descriptor table of its process
 //!   g N                  `( exit N )`          gg N            `( ( exit N ) )`
 //!   gp M M …             `( M | M … )`         gb N            `( st N & wait $! )`
 //!   gw A B               `( st A & st B & wait )`
@@ -54,6 +57,10 @@
 //! choices (k = 6 quick, 12 thorough; continuation "lowest task first"), each once, breadth-first by
 //! the position of the last deviation, capped; then seeded random schedules.
 //!
+//! After `z=`: one ` F[<before>|<stage 0>|…|<stage N-1>|<after>]` per `fd` statement — the descriptor tables
+//! of the subshell before / after the pipeline and of every stage when its command starts, each a list of
+//! `<fd><kind>`, kind `o` (not a pipe) or `rJ` / `wJ` (read / write end of the J-th distinct pipe).
+//!
 //! Observation: the probe trace `<$?>/<$!>/<$x>` with every `$!` value replaced by `a<k>` (k-th distinct
 //! value), pipeline output as `o:<word>`, then `st=<final exit status>` and `z=<number of children of any process that are
 //! alive or still hold an unreported state at exit>`.  A run in which nothing is runnable while the shell
@@ -61,7 +68,10 @@
 //!
 //! Oracle (Rust side, independent of the Lean model): the observation of a (program, schedule) pair
 //! equals that of the first schedule explored for the same program (`FAIL:schedule-dependent`), no
-//! zombie (`FAIL:zombie`), no deadlock (`FAIL:deadlock`), no livelock (`FAIL:TIMEOUT`).
+//! zombie (`FAIL:zombie`), descriptor hygiene of every `fd` pipeline evaluated on the real tables by inode
+//! identity (`FAIL:descriptors(…)`: stage k holds a pipe end exactly at 0 (k > 0, read end of its left
+//! neighbour's stdout pipe) and at 1 (k < N-1, write end), everything else as before the pipeline, the
+//! subshell's own table unchanged and free of pipe ends afterwards), no deadlock (`FAIL:deadlock`), no livelock (`FAIL:TIMEOUT`).
 
 use std::cell::{Cell, RefCell};
 use std::fmt::Debug;
@@ -80,7 +90,8 @@ use yash_env::Env;
 use yash_env::job::Pid;
 use yash_env::semantics::Divert;
 use yash_env::system::Concurrent;
-use yash_env::system::r#virtual::{Executor, SystemState, VirtualSystem};
+use yash_env::system::r#virtual::{Executor, FileBody, Inode, SystemState, VirtualSystem};
+use yash_env::system::GetPid as _;
 use yash_semantics::read_eval_loop;
 use yash_semantics::trap::run_exit_trap;
 use yverif::proto::{Opts, dec_str, emit, guarded, quiet_panics};
@@ -154,8 +165,184 @@ fn nap_main(env: &mut VEnv, args: Vec<Field>) -> BuiltinFuture<'_> {
     })
 }
 
+// ------------------------------------------------------------------------------------------
+// descriptor tables of pipeline stages (`fd` statements)
+
+/// one open descriptor of a snapshot: number, readable, writable, and the inode if it is a FIFO (the `Rc`
+/// is kept so that the address identifies the pipe for the whole run; holding an inode does not count as
+/// a reader or a writer — those are counted per open file description)
+struct SnapFd {
+    fd: i32,
+    readable: bool,
+    writable: bool,
+    fifo: Option<Rc<RefCell<Inode>>>,
+}
+
+thread_local! {
+    /// the process table of the run in progress (`fdsnap` reads the calling process's descriptors from it)
+    static STATE: RefCell<Option<Rc<RefCell<SystemState>>>> = const { RefCell::new(None) };
+    /// `(label, descriptors)` in the order the snapshots were taken
+    static SNAPS: RefCell<Vec<(String, Vec<SnapFd>)>> = const { RefCell::new(Vec::new()) };
+}
+
+/// `fdsnap LABEL`: records the descriptor table of the calling process (no I/O: standard output may be
+/// closed or a pipe); exit status 0.
+fn fdsnap_main(env: &mut VEnv, args: Vec<Field>) -> BuiltinFuture<'_> {
+    let label = args.first().map(|f| f.value.clone()).unwrap_or_default();
+    let pid = env.system.getpid();
+    Box::pin(async move {
+        let state = STATE.with(|s| s.borrow().clone());
+        if let Some(state) = state {
+            let st = state.borrow();
+            if let Some(p) = st.processes.get(&pid) {
+                let fds = p
+                    .fds()
+                    .iter()
+                    .map(|(fd, body)| {
+                        let ofd = body.open_file_description.borrow();
+                        let is_fifo = matches!(ofd.inode().borrow().body, FileBody::Fifo { .. });
+                        SnapFd {
+                            fd: fd.0,
+                            readable: ofd.is_readable(),
+                            writable: ofd.is_writable(),
+                            fifo: is_fifo.then(|| Rc::clone(ofd.inode())),
+                        }
+                    })
+                    .collect();
+                SNAPS.with(|v| v.borrow_mut().push((label, fds)));
+            }
+        }
+        ExitStatus::SUCCESS.into()
+    })
+}
+
+/// Canonical text of the snapshots of one run and the hygiene oracle evaluated on them.
+/// Per `fd` statement `I` (labels `I.B`, `I.0` … `I.(n-1)`, `I.P`): ` F[<B>|<stage 0>|…|<P>]`, a table being
+/// `fd kind` pairs (`o` = not a FIFO, `rJ` / `wJ` = read / write end of the J-th distinct FIFO of this
+/// statement in the order B, stages, P, descriptors ascending — with hygiene J is the number of the pipe).
+/// Oracle (XCU 2.9.2 evaluated on the real tables, inode identity instead of the canonical numbers): stage k
+/// has a FIFO exactly at 0 (read end, k > 0) and at 1 (write end, k < n-1), stage k's 0 and stage k-1's 1 are
+/// the same FIFO, different pairs are different FIFOs, everything else is what B had, B and P are equal and
+/// hold no FIFO.
+fn observe_snaps() -> (String, Option<String>) {
+    let snaps = SNAPS.with(|v| std::mem::take(&mut *v.borrow_mut()));
+    let mut stmts: Vec<String> = vec![];
+    for (label, _) in &snaps {
+        if let Some((i, _)) = label.split_once('.') {
+            if !stmts.iter().any(|s| s == i) {
+                stmts.push(i.to_string());
+            }
+        }
+    }
+    stmts.sort_by_key(|s| s.parse::<usize>().unwrap_or(usize::MAX));
+    let mut text = String::new();
+    let mut fail: Option<String> = None;
+    for i in &stmts {
+        let get = |what: &str| snaps.iter().filter(|(l, _)| *l == format!("{i}.{what}")).collect::<Vec<_>>();
+        let mut tables: Vec<(String, Option<&Vec<SnapFd>>)> = vec![];
+        let b = get("B");
+        tables.push(("B".into(), b.first().map(|x| &x.1)));
+        let mut n = 0usize;
+        while !get(&n.to_string()).is_empty() {
+            n += 1;
+        }
+        for k in 0..n {
+            let v = get(&k.to_string());
+            if v.len() != 1 {
+                fail.get_or_insert(format!("stage-{k}-ran-{}-times", v.len()));
+            }
+            tables.push((k.to_string(), v.first().map(|x| &x.1)));
+        }
+        let pp = get("P");
+        tables.push(("P".into(), pp.first().map(|x| &x.1)));
+        let mut pipes: Vec<*const RefCell<Inode>> = vec![];
+        let mut parts: Vec<String> = vec![];
+        for (_, t) in &tables {
+            let Some(t) = t else {
+                parts.push("?".into());
+                fail.get_or_insert("snapshot-missing".into());
+                continue;
+            };
+            let mut toks: Vec<String> = vec![];
+            for f in t.iter() {
+                let kind = match &f.fifo {
+                    None => "o".to_string(),
+                    Some(inode) => {
+                        let a = Rc::as_ptr(inode);
+                        let j = pipes.iter().position(|x| *x == a).unwrap_or_else(|| {
+                            pipes.push(a);
+                            pipes.len() - 1
+                        });
+                        let rw = match (f.readable, f.writable) {
+                            (true, false) => "r",
+                            (false, true) => "w",
+                            _ => "x",
+                        };
+                        format!("{rw}{j}")
+                    }
+                };
+                toks.push(format!("{}{kind}", f.fd));
+            }
+            parts.push(if toks.is_empty() { "-".into() } else { toks.join(",") });
+        }
+        text.push_str(&format!(" F[{}]", parts.join("|")));
+        // the oracle
+        let fifo_at = |t: &Vec<SnapFd>, fd: i32| t.iter().find(|f| f.fd == fd).and_then(|f| f.fifo.as_ref().map(|i| (Rc::as_ptr(i), f.readable, f.writable)));
+        let others = |t: &Vec<SnapFd>, skip: &[i32]| -> Vec<i32> {
+            t.iter().filter(|f| f.fifo.is_none() && !skip.contains(&f.fd)).map(|f| f.fd).collect()
+        };
+        if let (Some(Some(b)), Some(Some(p))) = (tables.first().map(|x| x.1), tables.last().map(|x| x.1)) {
+            if b.iter().any(|f| f.fifo.is_some()) || p.iter().any(|f| f.fifo.is_some()) {
+                fail.get_or_insert("parent-holds-pipe-end".into());
+            }
+            if others(b, &[]) != others(p, &[]) {
+                fail.get_or_insert("parent-table-changed".into());
+            }
+            let mut seen: Vec<*const RefCell<Inode>> = vec![];
+            for k in 0..n {
+                let Some(t) = tables[k + 1].1 else { continue };
+                let mut want: Vec<i32> = vec![];
+                if k > 0 {
+                    want.push(0);
+                }
+                if k + 1 < n {
+                    want.push(1);
+                }
+                let have: Vec<i32> = t.iter().filter(|f| f.fifo.is_some()).map(|f| f.fd).collect();
+                if have != want {
+                    fail.get_or_insert(format!("stage-{k}-pipe-descriptors-{have:?}"));
+                    continue;
+                }
+                if others(t, &want) != others(b, &want) || t.iter().any(|f| f.fifo.is_none() && want.contains(&f.fd)) {
+                    fail.get_or_insert(format!("stage-{k}-other-descriptors"));
+                }
+                if k > 0 {
+                    let me = fifo_at(t, 0);
+                    let left = tables[k].1.and_then(|l| fifo_at(l, 1));
+                    match (me, left) {
+                        (Some((a, true, false)), Some((b2, false, true))) if a == b2 => {}
+                        _ => {
+                            fail.get_or_insert(format!("stage-{k}-stdin-not-left-neighbours-stdout"));
+                        }
+                    }
+                }
+                if k + 1 < n {
+                    if let Some((a, _, _)) = fifo_at(t, 1) {
+                        if seen.contains(&a) {
+                            fail.get_or_insert(format!("stage-{k}-pipe-reused"));
+                        }
+                        seen.push(a);
+                    }
+                }
+            }
+        }
+    }
+    (text, fail)
+}
+
 fn flow_builtins() -> Vec<(&'static str, Builtin<VSys>)> {
     vec![
+        ("fdsnap", Builtin::new(Type::Mandatory, fdsnap_main)),
         ("nap", Builtin::new(Type::Mandatory, nap_main)),
         ("spew", Builtin::new(Type::Mandatory, spew_main)),
         ("take", Builtin::new(Type::Mandatory, take_main)),
@@ -291,6 +478,9 @@ struct RunOut {
     /// processes ever created (including the shell)
     procs: usize,
     taken: Vec<(u8, u8)>,
+    /// descriptor tables recorded by `fdsnap` (canonical text) and the hygiene oracle on them
+    fds: String,
+    fds_fail: Option<String>,
 }
 
 const MAX_POLLS: usize = 200_000;
@@ -301,6 +491,8 @@ fn run_sched(script: &str, mut chooser: Chooser) -> RunOut {
     let state: Rc<RefCell<SystemState>> = Rc::clone(&system.state);
     let sched = Rc::new(Sched::default());
     state.borrow_mut().executor = Some(Rc::clone(&sched) as Rc<dyn Executor>);
+    STATE.with(|s| *s.borrow_mut() = Some(Rc::clone(&state)));
+    SNAPS.with(|v| v.borrow_mut().clear());
     // virtual time (needed by `nap`): starts now, advanced by the run loop only when nothing is runnable
     state.borrow_mut().now = Some(std::time::Instant::now());
 
@@ -385,10 +577,12 @@ fn run_sched(script: &str, mut chooser: Chooser) -> RunOut {
     };
     let stdout = read_file(&state, "/dev/stdout").unwrap_or_default();
     let stderr = read_file(&state, "/dev/stderr").unwrap_or_default();
+    let (fds, fds_fail) = observe_snaps();
+    STATE.with(|s| *s.borrow_mut() = None);
     // break the Rc cycle state -> executor -> tasks -> state
     state.borrow_mut().executor = None;
     sched.tasks.borrow_mut().clear();
-    RunOut { stdout, stderr, status: status.unwrap_or(-1), stuck, deadlock, zombies, procs, taken: chooser.taken }
+    RunOut { stdout, stderr, status: status.unwrap_or(-1), stuck, deadlock, zombies, procs, taken: chooser.taken, fds, fds_fail }
 }
 
 /// The tail of `yash_cli::run_as_shell_process` (as in `yverif::shell`).
@@ -418,7 +612,8 @@ async fn eval_source(env: &mut VEnv, source: &Source) -> i32 {
 
 fn render_member(t: &str) -> Option<String> {
     let (h, r) = t.split_at(1);
-    let num = || r.parse::<u32>().ok().filter(|n| *n < 256);
+    // every member runs in a child: statuses above 255 are allowed (the parent sees the low 8 bits)
+    let num = || r.parse::<u32>().ok().filter(|n| *n < 1000);
     Some(match h {
         "c" if r.is_empty() => "cat".to_string(),
         "s" => format!("st {}", num()?),
@@ -460,7 +655,9 @@ fn render_members(ms: &[&str]) -> Option<String> {
 /// shell text of one statement; `nasync` counts the asynchronous lists so far
 fn render_stmt(t: &str, nasync: &mut usize) -> Option<String> {
     let ws: Vec<&str> = t.split_whitespace().collect();
-    let num = |w: &str| w.parse::<u32>().ok().filter(|n| *n < 256);
+    // N is always the exit status of a CHILD (subshell, job, command substitution): up to 999, of which the
+    // shell sees the low 8 bits
+    let num = |w: &str| w.parse::<u32>().ok().filter(|n| *n < 1000);
     Some(match ws.as_slice() {
         ["m1"] => "set -m".to_string(),
         ["m0"] => "set +m".to_string(),
@@ -570,10 +767,46 @@ fn render_stmt(t: &str, nasync: &mut usize) -> Option<String> {
     })
 }
 
+/// `fd X Y N` (statement number `idx`): an N-stage pipeline of `fdsnap`s in a subshell in which the
+/// descriptors X ⊆ {0,1,2} are closed and Y ⊆ {3..9} are open (copies of standard error) — `-` = none; the
+/// descriptor tables of the subshell before (`B`) and after (`P`) the pipeline and of every stage when its
+/// command starts are recorded.
+fn render_fd(ws: &[&str], idx: usize) -> Option<String> {
+    let [x, y, n] = ws else { return None };
+    let digits = |t: &str, lo: u32, hi: u32| -> Option<Vec<u32>> {
+        if t == "-" {
+            return Some(vec![]);
+        }
+        let v: Option<Vec<u32>> = t.chars().map(|c| c.to_digit(10).filter(|d| *d >= lo && *d <= hi)).collect();
+        let v = v?;
+        (v.windows(2).all(|w| w[0] < w[1]) && !v.is_empty()).then_some(v)
+    };
+    let closed = digits(x, 0, 2)?;
+    let opened = digits(y, 3, 9)?;
+    let n = n.parse::<usize>().ok().filter(|n| (2..=8).contains(n))?;
+    let mut redirs: Vec<String> = opened.iter().map(|d| format!("{d}>&2")).collect();
+    for d in &closed {
+        redirs.push(match d {
+            0 => "<&-".to_string(),
+            1 => ">&-".to_string(),
+            _ => "2>&-".to_string(),
+        });
+    }
+    let stages: Vec<String> = (0..n).map(|k| format!("fdsnap {idx}.{k}")).collect();
+    let exec = if redirs.is_empty() { String::new() } else { format!("exec {}; ", redirs.join(" ")) };
+    Some(format!("( {exec}fdsnap {idx}.B; {}; fdsnap {idx}.P )", stages.join(" | ")))
+}
+
 fn render(prog: &str) -> Option<String> {
     let mut nasync = 0usize;
     let mut out = String::new();
-    for t in prog.split(';').map(str::trim).filter(|t| !t.is_empty()) {
+    for (idx, t) in prog.split(';').map(str::trim).filter(|t| !t.is_empty()).enumerate() {
+        let ws: Vec<&str> = t.split_whitespace().collect();
+        if ws.first() == Some(&"fd") {
+            out.push_str(&render_fd(&ws[1..], idx)?);
+            out.push_str("\nprobe \"$!\" \"$x\"\n");
+            continue;
+        }
         out.push_str(&render_stmt(t, &mut nasync)?);
         out.push_str("\nprobe \"$!\" \"$x\"\n");
     }
@@ -630,13 +863,16 @@ fn observe(o: &RunOut) -> String {
             None => toks.push(format!("o:{line}")),
         }
     }
-    format!("{} st={} z={}", toks.join(" "), status(&o.status.to_string()), o.zombies)
+    format!("{} st={} z={}{}", toks.join(" "), status(&o.status.to_string()), o.zombies, o.fds)
 }
 
 // ------------------------------------------------------------------------------------------
 // generator
 
-const STATUSES: [u32; 8] = [0, 0, 1, 2, 3, 7, 42, 255];
+/// exit statuses of children; 256, 300, 511 are seen by the parent as 0, 44, 255 (`exit` passes on the low 8 bits)
+const STATUSES: [u32; 11] = [0, 0, 1, 2, 3, 7, 42, 255, 256, 300, 511];
+/// exit statuses of flow-pipeline stages (`take K S`, `st S`: below 256)
+const FLOW_STATUSES: [u32; 8] = [0, 0, 1, 2, 3, 7, 42, 255];
 const WORDS: [&str; 4] = ["hi", "abc", "x", "hello"];
 
 fn gen_members(r: &mut Rng, n: usize, allow_echo: bool) -> Vec<String> {
@@ -669,7 +905,7 @@ fn gen_members(r: &mut Rng, n: usize, allow_echo: bool) -> Vec<String> {
 /// buffer) in between can hold, so that the producer fails with EPIPE under every schedule.
 fn gen_flow(r: &mut Rng) -> String {
     const SIZES: [usize; 16] = [0, 1, 2, 511, 512, 513, 1023, 1024, 1025, 1535, 1536, 2047, 2048, 2049, 3000, 4096];
-    let st = *r.pick(&STATUSES);
+    let st = *r.pick(&FLOW_STATUSES);
     let with_cat = r.chance(1, 3);
     let slack = if with_cat { 4097 } else { 1025 }; // more than the pipes in between can buffer
     let deltas: [usize; 5] = [0, 1, 511, 1024, 3000];
@@ -697,7 +933,7 @@ fn gen_flow(r: &mut Rng) -> String {
     let mut ms: Vec<String> = vec![];
     let prefix = !with_cat && r.chance(1, 4);
     if prefix {
-        ms.push(format!("s{}", r.pick(&STATUSES)));
+        ms.push(format!("s{}", r.pick(&FLOW_STATUSES)));
     }
     ms.push(format!("w{n}"));
     if with_cat {
@@ -741,6 +977,9 @@ fn gen_jobs_program(r: &mut Rng, thorough: bool) -> String {
     let mut epoch: Vec<usize> = vec![]; // jobs inserted since the table was last empty
     let mut clean = true; // nothing removed from / stopped in the table since then
     let mut monitor = false;
+    // signals the shell traps from here on (`tw`, `tk`): a job forked later inherits them blocked until its entry
+    // step, so such a signal sent to it may stay pending — the job is `doomed`, not yet certainly `dead`
+    let mut trapped: Vec<&str> = vec![];
     let new_job = |jobs: &mut Vec<GJob>, epoch: &mut Vec<usize>, kind: JKind, monitor: bool| {
         jobs.push(GJob { kind, open: true, fresh: kind == JKind::Nap, stopped: false, igniq: !monitor, dead: false, doomed: false, exited: false });
         epoch.push(jobs.len());
@@ -795,9 +1034,16 @@ fn gen_jobs_program(r: &mut Rng, thorough: bool) -> String {
                         }
                         "INT" | "QUIT" if j.igniq => {}
                         _ => {
-                            // dead; stays in the job table until it is waited for
+                            // dead; stays in the job table until it is waited for.  If the shell traps that signal
+                            // the death may come only with the job's entry step: no further signal until virtual
+                            // time has passed (since /repo 3ef5976 the status of such a `kill` — 0 for a live
+                            // process, 1 for a reaped one — would depend on the schedule)
                             j.fresh = false;
-                            j.dead = true;
+                            if trapped.contains(&sig) {
+                                j.doomed = true;
+                            } else {
+                                j.dead = true;
+                            }
                         }
                     }
                     format!("k {sig} {}", i + 1)
@@ -811,11 +1057,14 @@ fn gen_jobs_program(r: &mut Rng, thorough: bool) -> String {
                     j.dead = j.dead || j.doomed;
                 }
                 new_job(&mut jobs, &mut epoch, JKind::Other, monitor);
-                format!("tw {} {st}", r.pick(&["USR1", "INT", "TERM", "HUP"]))
+                let sig = *r.pick(&["USR1", "INT", "TERM", "HUP"]);
+                trapped.push(sig);
+                format!("tw {sig} {st}")
             }
             12 if nopen < 3 && r.chance(2, 3) => {
                 // a trapped signal sent to a freshly forked job; often waited for at once, with nothing else going on
                 let sig = *r.pick(&["USR1", "TERM", "HUP", "INT", "QUIT"]);
+                trapped.push(sig);
                 let gap = r.chance(1, 2);
                 if gap {
                     for j in jobs.iter_mut() {
@@ -941,6 +1190,14 @@ fn gen_jobs_program(r: &mut Rng, thorough: bool) -> String {
 }
 
 /// A race-free program with at most 5 live processes (the shell included).
+/// `fd X Y N`: X = a subset of {0,1,2} closed (every subset), Y = a subset of {3..9} open, N = 2..=max stages
+fn gen_fd(r: &mut Rng, max: usize) -> String {
+    let closed: String = (0..3).filter(|_| r.chance(2, 5)).map(|d| char::from_digit(d, 10).unwrap()).collect();
+    let opened: String = (3..10).filter(|_| r.chance(1, 4)).map(|d| char::from_digit(d, 10).unwrap()).collect();
+    let dash = |t: String| if t.is_empty() { "-".to_string() } else { t };
+    format!("fd {} {} {}", dash(closed), dash(opened), 2 + r.below(max - 1))
+}
+
 fn gen_program(r: &mut Rng, thorough: bool) -> String {
     let len = 2 + r.below(if thorough { 7 } else { 5 });
     let mut stmts: Vec<String> = vec![];
@@ -957,6 +1214,7 @@ fn gen_program(r: &mut Rng, thorough: bool) -> String {
         }
         let s = match choice {
             0 => (*r.pick(&["pf1", "pf0", "m1", "m0"])).to_string(),
+            1 if room >= 3 && r.chance(2, 5) => gen_fd(r, (room - 1).min(4)),
             1 if room >= 3 => {
                 let f = gen_flow(r);
                 if r.chance(1, 4) { f.replacen("fp", *r.pick(&["fpo", "fpi", "fpb"]), 1) } else { f }
@@ -1038,7 +1296,14 @@ fn gen_program(r: &mut Rng, thorough: bool) -> String {
     stmts.join("; ")
 }
 
-const FIXED_PROGRAMS: [&str; 38] = [
+const FIXED_PROGRAMS: [&str; 45] = [
+    "fd - - 2",
+    "fd - - 5",
+    "fd 0 - 3; fd 1 - 3; fd 01 - 4",
+    "fd 012 - 3; fd 2 34 6",
+    "fd 1 3 8; fd 02 789 7",
+    "pf1; fd 01 35 3; bg s3; fd 0 4 2; wj 1; w",
+    "m1; fd 1 - 3; fd - 3579 4; m0; fd 01 3 2",
     "bg s3; tw USR1 0; k TERM 1; wj 1; wj 2; w",
     "bg s3; bg g5; tw HUP 1; k KILL 2; k CONT 1; k STOP 1; wj 2 1; w",
     "bn 1000 7; k TERM 1; k HUP 1; k KILL 1; k CONT 1; wj 1; w",
@@ -1105,6 +1370,8 @@ fn run_case(prog: &str, script: &str, chooser: Chooser, first: &mut Option<Strin
             "FAIL:TIMEOUT".into()
         } else if o.zombies != 0 {
             "FAIL:zombie".into()
+        } else if let Some(what) = &o.fds_fail {
+            format!("FAIL:descriptors({what})")
         } else if first.as_ref().is_some_and(|f| *f != obs) {
             format!("FAIL:schedule-dependent(first={})", first.as_ref().unwrap())
         } else {
